@@ -1,6 +1,7 @@
 /-!
 Model of `stdlib/json` of d5/tengo: `Encode` / `encodeString` (encode.go), the validating scanner
-automaton `checkValid` (scanner.go), `unquote` and `Decode` with its number typing (decode.go).
+automaton `checkValid` (scanner.go, with its `maxNestingDepth` limit on the parse stack), `unquote` and
+`Decode` with its number typing (decode.go).
 Core Lean only (linked into the driver).
 
 External (parameters, supplied by the harness as oracle tables; theorems quantify over them):
@@ -310,10 +311,20 @@ def stateEndValue (σ : List PS) (c : UInt8) : Tr :=
         else if c = 0x5D then popTo rest .endArray
         else failAt σ "after array element"
 
+/-- `maxNestingDepth` of scanner.go (the limit encoding/json has). -/
+def maxNestingDepth : Nat := 10000
+
+/-- `s.step = st` followed by `return s.pushParseState(c, p, op)`: the state is pushed first; if the
+stack is then longer than `maxNestingDepth` the result is `s.error(c, "exceeded max depth")` (which
+overwrites `s.step` with `stateError`), otherwise the success opcode `op`. -/
+def pushTo (st : Step) (p : PS) (σ : List PS) (op : Op) : Tr :=
+  if (p :: σ).length ≤ maxNestingDepth then goTo st (p :: σ) op
+  else failAt (p :: σ) "exceeded max depth"
+
 def stateBeginValue (σ : List PS) (c : UInt8) : Tr :=
   if isSpace c then goTo .beginValue σ .skipSpace
-  else if c = 0x7B then goTo .beginStringOrEmpty (.objKey :: σ) .beginObject
-  else if c = 0x5B then goTo .beginValueOrEmpty (.arr :: σ) .beginArray
+  else if c = 0x7B then pushTo .beginStringOrEmpty .objKey σ .beginObject
+  else if c = 0x5B then pushTo .beginValueOrEmpty .arr σ .beginArray
   else if c = 0x22 then goTo .inString σ .beginLiteral
   else if c = 0x2D then goTo .neg σ .beginLiteral
   else if c = 0x30 then goTo .s0 σ .beginLiteral
